@@ -250,7 +250,7 @@ PROPS = {
     },
     'C05': {
         'id': 'C05', 'area': 'lc',
-        'theorems': ['Props.C05_once_in_order', 'Props.C05_assigned_own_ecu', 'Props.C05_never_stops'],
+        'theorems': ['Props.C05_once_in_order', 'Props.C05_assigned_own_ecu', 'Props.C05_nonzero_id', 'Props.C05_full', 'Props.C05_never_stops'],
         'n_quick': 4000, 'n_thorough': 120000, 'project': _lc_project,
     },
     'C06': {
